@@ -102,6 +102,31 @@ func Run(r *ev.Rec, n int64, f func(i int64, l *ev.Local)) {
 	r.Extra["cases_completed_sum"] = float64(atomic.LoadInt64(&done))
 }
 
+// RunEveryShard executes f(i, local) for every i in [0,n) in EVERY shard process: f itself splits the work of one case
+// over the shards (explore.Explorer.Shard/NShards: the first-level subtrees of an exploration are dealt round-robin).
+// Used where the cases are few and of very unequal size.
+func RunEveryShard(r *ev.Rec, n int64, f func(i int64, l *ev.Local)) {
+	l := r.Local()
+	defer l.Merge()
+	var done int64
+	for i := int64(0); i < n; i++ {
+		if r.Expired() {
+			r.Exhaustive = false
+			r.Extra["deadline_hit"] = true
+			break
+		}
+		runOne(r, i, l, f)
+		done++
+	}
+	if r.Shard == 0 {
+		if v, ok := r.Extra["cases_completed_sum"].(float64); ok {
+			r.Extra["cases_completed_sum"] = v + float64(done)
+		} else {
+			r.Extra["cases_completed_sum"] = float64(done)
+		}
+	}
+}
+
 func runOne(r *ev.Rec, i int64, l *ev.Local, f func(i int64, l *ev.Local)) {
 	defer func() {
 		if p := recover(); p != nil {
